@@ -793,6 +793,24 @@ func (c *Ctx) derivedCorners(prop string) {
 		m.OEquals(plainO, dO)
 		m.OEquals(dO, plainO)
 	case "C05":
+		// a derived value stored as an element is a list / an object for every kind test, also after the element moved
+		for _, t := range []string{lholder, m.SubList(lholder, 0, 2), m.Concat(lholder, lholder), m.Clone(lholder)} {
+			if t == "" {
+				continue
+			}
+			m.TypeOf(t, 0)
+			m.TypeOf(t, 1)
+			m.GetK(t, 'l', 0)
+			m.GetK(t, 'o', 1)
+			m.AllK(t, 'l')
+			m.IndexOf(t, m.RefGV(dO))
+		}
+		m.Reverse(lholder)
+		m.TypeOf(lholder, 1)
+		m.TypeOf(lholder, 2)
+		m.Reverse(lholder)
+		m.OTypeOf(holder, "tags")
+		m.OTypeOf(holder, "meta")
 		// a derived list is a List like any other as an argument
 		plainL := m.NewList(gvStr("p"))
 		ddL := m.Derive(dL)
